@@ -38,6 +38,7 @@ def lst(s):
 
 class C18(PropBase):
     pid = "C18"
+    translators = ["context_tables.py"]
     coq_dirs = ["Base", "C18", "Gen"]
     bins = ["c18"]
     rule = ("cases = (context type, register name, validity, value): all 9 types x every name and alias the translator found in "
